@@ -60,6 +60,7 @@ type vfc22Call struct {
 
 type vfc22Env struct {
 	mu       sync.Mutex
+	byTenant map[endpointReplica]map[string]byte // read-only: per-tenant outcomes of local writes
 	outcome  map[endpointReplica]byte
 	pending  map[endpointReplica]*vfc22Call
 	log      []endpointReplica
@@ -148,9 +149,24 @@ func vfc22Names(in *storepb.WriteRequest) []string {
 type vfc22CtxKey struct{}
 
 type vfc22LocalCall struct {
-	env     *vfc22Env
-	ep      Endpoint
-	outcome byte
+	env      *vfc22Env
+	ep       Endpoint
+	outcome  byte
+	byTenant map[string]byte // per-tenant outcome of this local write (outcome 'T'), nil: one outcome for all tenants
+}
+
+func (lc *vfc22LocalCall) outcomeFor(tenant string) byte {
+	if lc.outcome != 'T' {
+		return lc.outcome
+	}
+	o, ok := lc.byTenant[tenant]
+	if !ok {
+		lc.env.mu.Lock()
+		lc.env.problems = append(lc.env.problems, fmt.Sprintf("local write for unplanned tenant %q", tenant))
+		lc.env.mu.Unlock()
+		return 'O'
+	}
+	return o
 }
 
 // vfc22Peer is the client boundary of one receive node. Remote nodes answer like a gRPC peer would
@@ -170,7 +186,7 @@ func (p *vfc22Peer) RemoteWrite(ctx context.Context, in *storepb.WriteRequest, _
 	<-call.release
 	o := p.env.outcomeOf(er)
 	if p.local != nil {
-		return p.local.RemoteWrite(context.WithValue(ctx, vfc22CtxKey{}, &vfc22LocalCall{env: p.env, ep: p.ep, outcome: o}), in)
+		return p.local.RemoteWrite(context.WithValue(ctx, vfc22CtxKey{}, &vfc22LocalCall{env: p.env, ep: p.ep, outcome: o, byTenant: p.env.byTenant[er]}), in)
 	}
 	switch o {
 	case 'S':
@@ -187,30 +203,39 @@ func (p *vfc22Peer) RemoteWrite(ctx context.Context, in *storepb.WriteRequest, _
 
 type vfc22Tenants struct{}
 
-func (vfc22Tenants) TenantAppendable(string) (Appendable, error) { return vfc22Appendable{}, nil }
+func (vfc22Tenants) TenantAppendable(tenant string) (Appendable, error) {
+	return vfc22Appendable{tenant: tenant}, nil
+}
 
-type vfc22Appendable struct{}
+// vfc22Appendable is the fake TSDB of one tenant on the local node. Faults: U no appender because the TSDB is
+// not ready, A no appender (other error), C every sample conflicts, O commit fails.
+type vfc22Appendable struct{ tenant string }
 
-func (vfc22Appendable) Appender(ctx context.Context) (storage.Appender, error) {
+func (a vfc22Appendable) Appender(ctx context.Context) (storage.Appender, error) {
 	lc, _ := ctx.Value(vfc22CtxKey{}).(*vfc22LocalCall)
 	if lc == nil {
 		return nil, errors.New("vf: local write outside a monitored call")
 	}
-	if lc.outcome == 'U' {
+	o := lc.outcomeFor(a.tenant)
+	switch o {
+	case 'U':
 		return nil, tsdb.ErrNotReady
+	case 'A':
+		return nil, errors.New("vf: cannot open appender")
 	}
-	return &vfc22Appender{fakeAppender: newFakeAppender(nil, nil, nil), lc: lc}, nil
+	return &vfc22Appender{fakeAppender: newFakeAppender(nil, nil, nil), lc: lc, outcome: o}, nil
 }
 
 // vfc22Appender reuses the package's fakeAppender for the wide storage.Appender surface.
 type vfc22Appender struct {
 	*fakeAppender
-	lc    *vfc22LocalCall
-	names []string
+	lc      *vfc22LocalCall
+	outcome byte
+	names   []string
 }
 
 func (a *vfc22Appender) Append(ref storage.SeriesRef, l labels.Labels, t int64, v float64) (storage.SeriesRef, error) {
-	if a.lc.outcome == 'C' {
+	if a.outcome == 'C' {
 		return 0, storage.ErrOutOfOrderSample
 	}
 	a.names = append(a.names, strings.Clone(l.Get(labels.MetricName)))
@@ -218,10 +243,10 @@ func (a *vfc22Appender) Append(ref storage.SeriesRef, l labels.Labels, t int64, 
 }
 
 func (a *vfc22Appender) Commit() error {
-	if a.lc.outcome == 'O' {
+	if a.outcome == 'O' {
 		return errors.New("vf: commit failed")
 	}
-	if a.lc.outcome == 'S' {
+	if a.outcome == 'S' {
 		a.lc.env.store(a.lc.ep, a.names)
 	}
 	return nil
@@ -294,6 +319,27 @@ type vfc22Case struct {
 	ers      []endpointReplica            // all planned destinations, deterministic order
 	outcome  map[endpointReplica]byte
 	order    []endpointReplica // release order of all destinations whose outcome is not B
+	// multi-tenant requests: tenant taken from the split-tenant label (series -> tenant) instead of the tuple,
+	// and per-tenant outcomes of the writes that go to the local node (outcome 'T')
+	split    map[string]string
+	byTenant map[endpointReplica]map[string]byte
+}
+
+const vfc22SplitLabel = "vf_tenant"
+
+// tenantOf is the tenant a series is stored under: its split-tenant label, else the tenant of its tuple.
+func (c *vfc22Case) tenantOf(s string) string {
+	if t, ok := c.split[s]; ok {
+		return t
+	}
+	for _, tup := range c.tuples {
+		for _, x := range tup.Series {
+			if x == s {
+				return tup.Tenant
+			}
+		}
+	}
+	return ""
 }
 
 func vfc22Endpoints(n int) []Endpoint {
@@ -305,10 +351,13 @@ func vfc22Endpoints(n int) []Endpoint {
 	return out
 }
 
-func vfc22TimeSeries(name, extra string, i int) prompb.TimeSeries {
+func vfc22TimeSeries(name, extra, splitTenant string, i int) prompb.TimeSeries {
 	lb := []labelpb.ZLabel{{Name: labels.MetricName, Value: name}}
 	if extra != "" {
 		lb = append(lb, labelpb.ZLabel{Name: "k", Value: extra})
+	}
+	if splitTenant != "" {
+		lb = append(lb, labelpb.ZLabel{Name: vfc22SplitLabel, Value: splitTenant})
 	}
 	return prompb.TimeSeries{Labels: lb, Samples: []prompb.Sample{{Timestamp: int64(1000 + i), Value: float64(i)}}}
 }
@@ -330,7 +379,9 @@ func (c *vfc22Case) plan() error {
 	i := 0
 	for _, tup := range c.tuples {
 		for _, s := range tup.Series {
-			ts := vfc22TimeSeries(s, c.extra[s], i)
+			// the handler strips the split-tenant label and routes by the effective tenant
+			ts := vfc22TimeSeries(s, c.extra[s], "", i)
+			tenant := c.tenantOf(s)
 			i++
 			var reps []uint64
 			if c.rep > 0 {
@@ -341,7 +392,7 @@ func (c *vfc22Case) plan() error {
 				}
 			}
 			for _, rn := range reps {
-				ep, err := c.ring.GetN(tup.Tenant, &ts, rn)
+				ep, err := c.ring.GetN(tenant, &ts, rn)
 				if err != nil {
 					return err
 				}
@@ -381,9 +432,23 @@ func (c *vfc22Case) witness() map[string]any {
 	for _, er := range c.order {
 		order = append(order, c.erString(er)+"="+string(c.outcome[er]))
 	}
-	return map[string]any{"rf": c.rf, "replica_header": c.rep, "nodes": len(c.nodes), "local_node": c.local, "ring": c.ringKind,
+	w := map[string]any{"rf": c.rf, "replica_header": c.rep, "nodes": len(c.nodes), "local_node": c.local, "ring": c.ringKind,
 		"request": c.tuples, "destinations_and_outcomes": dest, "response_order": order,
-		"legend": "S success, C conflict, U unavailable, O other error, B unavailable (peer in back-off, answers immediately)"}
+		"legend": "S success, C conflict, U unavailable, O other error, B unavailable (peer in back-off, answers immediately), T per-tenant outcome on the local node (A = appender cannot be opened)"}
+	if len(c.split) > 0 {
+		w["split_tenant_label"] = c.split
+	}
+	if len(c.byTenant) > 0 {
+		pt := map[string]map[string]string{}
+		for er, m := range c.byTenant {
+			pt[c.erString(er)] = map[string]string{}
+			for t, o := range m {
+				pt[c.erString(er)][t] = string(o)
+			}
+		}
+		w["local_write_outcome_by_tenant"] = pt
+	}
+	return w
 }
 
 // seriesOutcomes returns, per series, the outcome letters of its destinations (B counted as U), sorted.
@@ -393,6 +458,9 @@ func (c *vfc22Case) seriesOutcomes(s string) string {
 		o := c.outcome[er]
 		if o == 'B' {
 			o = 'U'
+		}
+		if o == 'T' {
+			o = c.byTenant[er][c.tenantOf(s)]
 		}
 		b = append(b, o)
 	}
@@ -417,6 +485,7 @@ func vfc22Run(t *testing.T, h *Handler, pc *vfc22Peers, c *vfc22Case, invoke fun
 	var ret vfc22Ret
 	synctest.Test(t, func(t *testing.T) {
 		env := vfc22NewEnv(c.outcome)
+		env.byTenant = c.byTenant
 		clients := map[Endpoint]*peerWorker{}
 		down := map[Endpoint]bool{}
 		for i, ep := range c.nodes {
@@ -500,9 +569,11 @@ func vfc22NewHandler(rf int) (*Handler, *vfc22Peers, error) {
 		ReplicaHeader:     DefaultReplicaHeader,
 		ReplicationFactor: uint64(rf),
 		ForwardTimeout:    5 * time.Minute,
-		Writer:            NewWriter(log.NewNopLogger(), vfc22Tenants{}, &WriterOptions{}),
-		Limiter:           limiter,
-		Endpoint:          "vf-self:10901",
+		// series carrying this label are stored under the tenant it names (split-tenant feature)
+		SplitTenantLabelName: vfc22SplitLabel,
+		Writer:               NewWriter(log.NewNopLogger(), vfc22Tenants{}, &WriterOptions{}),
+		Limiter:              limiter,
+		Endpoint:             "vf-self:10901",
 	})
 	pc := &vfc22Peers{}
 	h.peers = pc
@@ -653,6 +724,99 @@ func vfc22MultiSeries(rng *rand.Rand, rf, nSeries int, alphabet string, realRing
 	return c, nil
 }
 
+// vfc22TenantCase builds a request that spans 2..4 tenants (tenant tuples of the gRPC request and/or the
+// split-tenant label) and whose replicas mostly include the node served by the production local writer;
+// the local TSDBs fail per tenant (no appender, conflict, commit error), remote replicas are mostly healthy.
+func vfc22TenantCase(rng *rand.Rand) (*vfc22Case, error) {
+	rf := []int{1, 1, 2, 3, 3, 4}[rng.Intn(6)]
+	c := &vfc22Case{rf: rf, nodes: vfc22Endpoints(rf + rng.Intn(2)), extra: map[string]string{}, ringKind: "table", split: map[string]string{}}
+	c.local = rng.Intn(len(c.nodes))
+	nTen := 2 + rng.Intn(3)
+	tenants := make([]string, nTen)
+	for i := range tenants {
+		tenants[i] = fmt.Sprintf("vf%d", i)
+	}
+	nSeries := nTen + rng.Intn(4)
+	mode := rng.Intn(3) // 0: tenant tuples, 1: one tuple + split label, 2: both
+	nTup := nTen
+	if mode == 1 {
+		nTup = 1
+	}
+	c.tuples = make([]vfc22Tuple, nTup)
+	for i := range c.tuples {
+		c.tuples[i].Tenant = tenants[i]
+	}
+	for i := 0; i < nSeries; i++ {
+		s := fmt.Sprintf("s%d", i)
+		want := tenants[i%nTen] // every tenant gets at least one series
+		switch {
+		case mode == 0:
+			c.tuples[i%nTen].Series = append(c.tuples[i%nTen].Series, s)
+		case mode == 1:
+			c.tuples[0].Series = append(c.tuples[0].Series, s)
+			if want != tenants[0] {
+				c.split[s] = want
+			}
+		default:
+			ti := rng.Intn(nTup)
+			c.tuples[ti].Series = append(c.tuples[ti].Series, s)
+			if want != tenants[ti] {
+				c.split[s] = want
+			}
+		}
+	}
+	// table ring: most series have a replica on the local node
+	tr := &vfc22Ring{table: map[string][]Endpoint{}, nodes: c.nodes}
+	for _, s := range c.allSeries() {
+		p := rng.Perm(len(c.nodes))
+		eps := make([]Endpoint, rf)
+		for i := range eps {
+			eps[i] = c.nodes[p[i]]
+		}
+		if rng.Intn(5) > 0 {
+			has := false
+			for _, e := range eps {
+				has = has || e == c.nodes[c.local]
+			}
+			if !has {
+				eps[rng.Intn(rf)] = c.nodes[c.local]
+			}
+		}
+		tr.table[s] = eps
+	}
+	c.ring = tr
+	if rng.Intn(5) == 0 {
+		c.rep = 1 + rng.Intn(rf)
+	}
+	if err := c.plan(); err != nil {
+		return nil, err
+	}
+	c.outcome = map[endpointReplica]byte{}
+	c.byTenant = map[endpointReplica]map[string]byte{}
+	for _, er := range c.ers {
+		if c.nodeIndex(er.endpoint) != c.local {
+			if rng.Intn(6) > 0 {
+				c.outcome[er] = 'S'
+			} else {
+				c.outcome[er] = "CUO"[rng.Intn(3)]
+			}
+			continue
+		}
+		c.outcome[er] = 'T'
+		m := map[string]byte{}
+		for _, t := range tenants {
+			if rng.Intn(5) < 3 {
+				m[t] = 'S'
+			} else {
+				m[t] = "CUOA"[rng.Intn(4)]
+			}
+		}
+		c.byTenant[er] = m
+	}
+	vfc22Order(rng, c)
+	return c, nil
+}
+
 func vfc22Sequences(alphabet string, n int) []string {
 	out := []string{""}
 	for i := 0; i < n; i++ {
@@ -673,7 +837,7 @@ func vfc22WriteRequest(c *vfc22Case) *storepb.WriteRequest {
 	for _, tup := range c.tuples {
 		tt := storepb.TimeSeriesTenantTuple{Tenant: tup.Tenant}
 		for _, s := range tup.Series {
-			tt.Timeseries = append(tt.Timeseries, vfc22TimeSeries(s, c.extra[s], i))
+			tt.Timeseries = append(tt.Timeseries, vfc22TimeSeries(s, c.extra[s], c.split[s], i))
 			i++
 		}
 		req.TimeseriesTenantData = append(req.TimeseriesTenantData, tt)
@@ -694,15 +858,17 @@ func TestVF_C22(t *testing.T) {
 	r.Rule("case = one gRPC RemoteWrite through the real Handler (fanoutForward, real peerWorker pools) against scripted peers: " +
 		"(a) single series: EVERY arrival sequence of per-replica outcomes {S ok,C conflict,U unavailable,O other}^RF for RF 1..5, replica<->node mapping and the " +
 		"node served by the production local writer drawn per repetition; (b) 1..6 series over RF..RF+3 nodes (table ring, hashmod, ketama; 1-2 tenants; fresh or already replicated; " +
-		"a node in back-off) with random outcomes and response order. Responses are released one at a time inside a synctest bubble. " +
+		"a node in back-off) with random outcomes and response order; (c) requests spanning 2..4 tenants (tenant tuples of the gRPC request and/or the split-tenant label), RF 1..4, whose replicas mostly include the node served by the " +
+		"production local write path (localAsyncWriter + Writer over one fake TSDB per tenant) with faults on a subset of the tenants (TSDB not ready, appender cannot be opened, every sample conflicts, commit fails), remote replicas mostly healthy. " +
+		"Responses are released one at a time inside a synctest bubble. " +
 		"oracle: when RemoteWrite returns nil, every series of the request is recorded as stored by >= quorum(RF) distinct nodes (1 for an already replicated request) in the peers' own log at that moment. " +
 		"distinct = hash of (rf, request, destinations, outcomes, order); non-trivial = at least one non-success outcome or a response still withheld when the handler returned")
 	r.Assume("quorum(RF) = 1 for RF 2, else floor(RF/2)+1 (docs/components/receive.md)")
-	r.Assume("a peer's write counts as stored only if the peer answered success; outcomes are per (node, replica) batch")
+	r.Assume("a remote peer's write counts as stored only if the peer answered success (outcome per (node, replica) batch); on the local node a series counts as stored only if the fake TSDB of its tenant committed it")
 	r.Assume("testing/synctest: a goroutine blocked on channels/WaitGroup of the bubble is quiescent; used for sequencing only, never for verdicts on time")
 
 	reps := r.N(2, 40)
-	nMulti := r.N(4500, 150000)
+	nMulti := r.N(4000, 150000)
 	var descs []vfc22Desc
 	for rep := 0; rep < reps; rep++ {
 		for rf := 1; rf <= 5; rf++ {
@@ -714,8 +880,12 @@ func TestVF_C22(t *testing.T) {
 	for i := 0; i < nMulti; i++ {
 		descs = append(descs, vfc22Desc{kind: "multi"})
 	}
-	r.Require(int64(len(descs)), len(descs)/3)
 	r.Extra("single_series_sequences_per_repetition", len(descs)-nMulti)
+	nTenants := r.N(1500, 40000)
+	for i := 0; i < nTenants; i++ {
+		descs = append(descs, vfc22Desc{kind: "tenants"})
+	}
+	r.Require(int64(len(descs)), len(descs)/3)
 	r.Exhaustive(false)
 
 	handlers := map[int]*Handler{}
@@ -737,6 +907,8 @@ func TestVF_C22(t *testing.T) {
 		var err error
 		if d.kind == "single" {
 			c, err = vfc22SingleSeries(rng, d.rf, d.seq, false)
+		} else if d.kind == "tenants" {
+			c, err = vfc22TenantCase(rng)
 		} else {
 			rf := 1 + rng.Intn(5)
 			c, err = vfc22MultiSeries(rng, rf, 1+rng.Intn(6), "SSCUO", true, true)
@@ -814,7 +986,7 @@ func TestVF_C22(t *testing.T) {
 func vfc23HTTPRequest(c *vfc22Case) (*http.Request, error) {
 	wreq := &prompb.WriteRequest{}
 	for i, s := range c.allSeries() {
-		wreq.Timeseries = append(wreq.Timeseries, vfc22TimeSeries(s, c.extra[s], i))
+		wreq.Timeseries = append(wreq.Timeseries, vfc22TimeSeries(s, c.extra[s], c.split[s], i))
 	}
 	buf, err := proto.Marshal(wreq)
 	if err != nil {
